@@ -9,7 +9,6 @@ import (
 	"sort"
 	"sync"
 	"sync/atomic"
-	"testing/synctest"
 
 	"github.com/attestantio/dirk/util/verifhook"
 )
@@ -114,10 +113,10 @@ type Sched struct {
 	// mode (they come from background goroutines the instance started), attributed to the housekeeping task.
 	booting  atomic.Bool
 	bootGoid uint64
-	KeyName func([]byte) string
-	stores  map[any]*Instance
-	sig     []byte // running hash of the schedule projection
-	Outcome string
+	KeyName  func([]byte) string
+	stores   map[any]*Instance
+	sig      []byte // running hash of the schedule projection
+	Outcome  string
 }
 
 var curSched atomic.Pointer[Sched]
@@ -268,7 +267,7 @@ func (s *Sched) BeginBoot(name string) *Task {
 
 // EndBoot finishes what BeginBoot started.
 func (s *Sched) EndBoot(t *Task, inst *Instance) {
-	synctest.Wait()
+	bubbleWait()
 	s.booting.Store(false)
 	t.Inst = inst
 	s.mu.Lock()
@@ -443,7 +442,7 @@ func (s *Sched) note(p *Park, what string) {
 func (s *Sched) ScheduleSignature() string { return hex.EncodeToString(s.sig) }
 
 // Quiesce waits until every goroutine in the bubble is durably blocked.
-func (s *Sched) Quiesce() { synctest.Wait() }
+func (s *Sched) Quiesce() { bubbleWait() }
 
 // Parked returns the canonical list of parked threads (after Quiesce).
 func (s *Sched) Parked() []*Park { return s.snapshot() }
@@ -454,7 +453,7 @@ func (s *Sched) Run() string {
 	s.direct.Store(false)
 	defer s.direct.Store(true)
 	for {
-		synctest.Wait()
+		bubbleWait()
 		parked := s.snapshot()
 		if s.cfg.Invariant != nil {
 			s.Direct(func() { s.cfg.Invariant(s) })
@@ -549,7 +548,7 @@ func onlyBackground(parked []*Park) bool {
 func (s *Sched) Unwind() {
 	s.direct.Store(false)
 	for i := 0; i < 100000; i++ {
-		synctest.Wait()
+		bubbleWait()
 		parked := s.snapshot()
 		if onlyBackground(parked) {
 			break
@@ -561,7 +560,7 @@ func (s *Sched) Unwind() {
 		}
 	}
 	s.direct.Store(true)
-	synctest.Wait()
+	bubbleWait()
 }
 
 // AbortBackground unwinds the housekeeping threads that are still parked (all of them, or those of one instance).
@@ -574,7 +573,7 @@ func (s *Sched) AbortBackground(inst *Instance) {
 		}
 	}
 	if n > 0 {
-		synctest.Wait() // they run to their next blocking point before the caller goes on (parks exist in bubbles only)
+		bubbleWait() // they run to their next blocking point before the caller goes on (parks exist in bubbles only)
 	}
 }
 
@@ -591,7 +590,7 @@ func (s *Sched) abort(p *Park) {
 // AbortInstance unwinds every parked thread that belongs to a dead instance (zombies after a crash).
 func (s *Sched) AbortInstance(inst *Instance) {
 	for i := 0; i < 100000; i++ {
-		synctest.Wait()
+		bubbleWait()
 		n := 0
 		for _, p := range s.snapshot() {
 			if p.Task.Inst == inst || p.Inst == inst {
